@@ -608,8 +608,13 @@ func (s *Sys) Reset() {
 			panic(fmt.Sprintf("harness: prelude op %q not enabled (enabled: %v)", op, s.Enabled()))
 		}
 		s.Apply(op)
-		if vs := s.Check(); len(vs) > 0 {
-			panic(fmt.Sprintf("harness: prelude op %q violates: %v", op, vs[0].Sig))
+		// a violation inside the scripted prelude is a violation of the start state
+		// (the explorer checks the root), not a harness failure
+		if len(s.viols) > 0 {
+			for i := range s.viols {
+				s.viols[i].Detail = fmt.Sprintf("in the scripted prelude %v at op %q; %s", s.Cfg.Prelude, op, s.viols[i].Detail)
+			}
+			break
 		}
 	}
 }
